@@ -5,6 +5,7 @@ import (
 	"context"
 	"fmt"
 	"math/rand"
+	"os"
 	"runtime"
 	"sort"
 	"sync"
@@ -176,7 +177,7 @@ func genOp(rng *rand.Rand, p E2E, conn, caller int, counter uint64) *Op {
 	o := &Op{Arrival: -1}
 	o.Form = rig.Forms[rng.Intn(len(rig.Forms))]
 	o.Shape = rng.Intn(4)
-	big := p.Profile == "mix" || p.Profile == "retain"
+	big := p.Profile == "mix" || p.Profile == "retain" || p.Profile == "matrix"
 	o.Spec = svc.Spec{Run: p.Run, Conn: uint32(conn), Caller: uint32(caller), Counter: counter,
 		DelayUs: uint32(rng.Intn(5000)), Fill: pickFill(rng, big), ReplyLen: uint32(pickFill(rng, big))}
 	if rng.Intn(4) == 0 {
@@ -188,7 +189,7 @@ func genOp(rng *rand.Rand, p E2E, conn, caller int, counter uint64) *Op {
 	switch p.Profile {
 	case "errors":
 		failing = 45
-	case "mix", "order":
+	case "mix", "order", "matrix":
 		failing = 25
 	case "retain", "ctx":
 		failing = 5
@@ -401,7 +402,10 @@ func (sp *StreamPlan) run(c *e2eConn, p E2E, retain bool) {
 
 // RunE2E runs one end-to-end scenario and applies every oracle that the
 // scenario's observations can decide.
-func RunE2E(env Env, p E2E) *Outcome {
+func RunE2E(env Env, p E2E) *Outcome { return RunE2EOn(env, p, nil) }
+
+// RunE2EOn is RunE2E with a custom way to start the server (real networks).
+func RunE2EOn(env Env, p E2E, start func(cfg rig.Config, seed int64) (*rig.Rig, error)) *Outcome {
 	out := &Outcome{Stats: map[string]int64{}}
 	rng := rand.New(rand.NewSource(p.Seed))
 	p.virtual = env.Virtual()
@@ -410,14 +414,24 @@ func RunE2E(env Env, p E2E) *Outcome {
 	cfg.Retain = p.Profile == "retain" && !cfg.SrvNoCopy
 	cfg.Pushes = DefaultPushes
 	addr := fmt.Sprintf("srv-%d", p.Run)
-	r := rig.Start(cfg, nil, addr, p.Seed)
+	var r *rig.Rig
+	if start != nil {
+		var err error
+		if r, err = start(cfg, p.Seed); err != nil {
+			out.Inconclusive = "server did not start: " + err.Error()
+			return out
+		}
+		addr = r.Addr
+	} else {
+		r = rig.Start(cfg, nil, addr, p.Seed)
+		if err := r.WaitUp(); err != nil {
+			out.Inconclusive = "server did not come up: " + err.Error()
+			return out
+		}
+	}
 	defer func() {
 		r.Server.Close()
 	}()
-	if err := r.WaitUp(); err != nil {
-		out.Inconclusive = "server did not come up: " + err.Error()
-		return out
-	}
 	var tr *rpc.Transport
 	var cl *rpc.Client
 	if p.Via == "transport" || p.Via == "client" {
@@ -444,8 +458,10 @@ func RunE2E(env Env, p E2E) *Outcome {
 			}
 			c.conn = conn
 			c.caller = conn
-			pairs := r.Net.Pairs()
-			c.pair = pairs[len(pairs)-1]
+			if r.Net != nil {
+				pairs := r.Net.Pairs()
+				c.pair = pairs[len(pairs)-1]
+			}
 		}
 		conns[i] = c
 	}
@@ -467,6 +483,15 @@ func RunE2E(env Env, p E2E) *Outcome {
 					if o.Kind == KCtxCancel || o.Kind == KPing {
 						o.Kind = KCall
 					}
+				}
+				if p.Cfg.Network == "ws" && o.Kind == KPing {
+					// ws is claimed for calls only; besides, the answer to a connection's first ping is a
+					// zero-length message, which hslam/websocket does not deliver
+					o.Kind = KCall
+				}
+				if p.Profile == "matrix" && k == 0 && j == 1 && o.Kind == KCall {
+					// a message larger than every configurable buffer, both ways
+					o.Spec.Fill, o.Spec.ReplyLen = 300000, 280000
 				}
 				c.ops[k] = append(c.ops[k], o)
 				all = append(all, o)
@@ -537,7 +562,13 @@ func RunE2E(env Env, p E2E) *Outcome {
 	atomic.StoreInt32(&gcStop, 1)
 	if !finished {
 		if !env.Virtual() {
-			out.Inconclusive = "workload did not finish within the real-time budget"
+			out.Inconclusive = "workload did not finish within the real-time budget (" + p.String() + ")"
+			if dir := os.Getenv("VT_WORK"); dir != "" {
+				buf := make([]byte, 1<<22)
+				buf = buf[:runtime.Stack(buf, true)]
+				os.MkdirAll(dir, 0o755)
+				os.WriteFile(fmt.Sprintf("%s/hang-%d.stacks", dir, p.Run), buf, 0o644)
+			}
 		}
 		hungOps, hungStreams := 0, 0
 		for _, o := range all {
@@ -859,7 +890,7 @@ func judgeE2E(out *Outcome, p E2E, r *rig.Rig, conns []*e2eConn, all []*Op, stre
 			}
 			continue
 		}
-		if !sent[e.ID] {
+		if !sent[e.ID] && e.Spec.Run != 0xfffffff { // 0xfffffff: the harness's own warm-up call
 			out.add("C04", "C04/e2e/unsent-exec", fmt.Sprintf("handler %s ran for id %s which no caller of this scenario sent (%s)", e.Method, e.ID, cfgs), nil)
 		}
 	}
